@@ -149,6 +149,11 @@ class HTMLEntity(Node):
         newval = bool(newval)
         if newval and self.named:
             raise ValueError("a named entity cannot be hexadecimal")
+        if newval and not self.named and int(self.value, 16) > 0x10FFFF:
+            # The same digits read as hexadecimal are a larger number
+            raise ValueError(
+                "entity value 0x{} is not in range(0x110000)".format(self.value)
+            )
         self._hexadecimal = newval
 
     @hex_char.setter
